@@ -1,44 +1,49 @@
 /-
-  Helper lemmas and the proofs behind Props/C19 (bounded draw, shuffle).
-  (Single Mathlib modules may be imported here if needed.)
+  The proofs behind Props/C19 (bounded draw, shuffle).  The statements live
+  here; the arguments are in `Proofs/RandDraw.lean` (Lemire multiply-shift with
+  rejection: window on the product, ceiling division, counting) and
+  `Proofs/RandShuffle.lean` (Fisher–Yates: `swap` lemmas, permutation,
+  injectivity / surjectivity of legal draw vectors).  Core Lean only.
 -/
 import Saltpack.Model.Rand
+import Saltpack.Proofs.RandDraw
+import Saltpack.Proofs.RandShuffle
 
 namespace Saltpack.Proofs
 open Saltpack Saltpack.Rand
 
 theorem step_reject_iff (n v : Nat) (hn : 0 < n) (hn' : n < 2 ^ 32) :
-    u32nStep n v = none ↔ (v * n) % 2 ^ 32 < 2 ^ 32 % n := by
-  sorry
+    u32nStep n v = none ↔ (v * n) % 2 ^ 32 < 2 ^ 32 % n :=
+  RandDraw.step_reject_iff n v hn hn'
 
 theorem step_range (n v r : Nat) (hn : 0 < n) (hv : v < 2 ^ 32) :
-    u32nStep n v = some r → r < n := by
-  sorry
+    u32nStep n v = some r → r < n :=
+  RandDraw.step_range n v r hn hv
 
 theorem step_interval (n r : Nat) (hn : 0 < n) (hn' : n < 2 ^ 32) (hr : r < n) :
     ∃ lo, lo + 2 ^ 32 / n ≤ 2 ^ 32 ∧
-      ∀ v, v < 2 ^ 32 → (u32nStep n v = some r ↔ lo ≤ v ∧ v < lo + 2 ^ 32 / n) := by
-  sorry
+      ∀ v, v < 2 ^ 32 → (u32nStep n v = some r ↔ lo ≤ v ∧ v < lo + 2 ^ 32 / n) :=
+  RandDraw.step_interval n r hn hn' hr
 
 theorem step_count (n r : Nat) (hn : 0 < n) (hn' : n < 2 ^ 32) (hr : r < n) :
-    ((List.range (2 ^ 32)).filter (fun v => u32nStep n v = some r)).length = 2 ^ 32 / n := by
-  sorry
+    ((List.range (2 ^ 32)).filter (fun v => u32nStep n v = some r)).length = 2 ^ 32 / n :=
+  RandDraw.step_count n r hn hn' hr
 
-theorem shuffle_perm {α : Type} (js : List Nat) (l : List α) : (shuffle js l).Perm l := by
-  sorry
+theorem shuffle_perm {α : Type} (js : List Nat) (l : List α) : (shuffle js l).Perm l :=
+  RandShuffle.shuffle_perm js l
 
 theorem shuffle_injective {α : Type} (l : List α) (hl : l.Nodup) (js js' : List Nat)
     (h : ValidDraws (l.length - 1) js) (h' : ValidDraws (l.length - 1) js') :
-    shuffle js l = shuffle js' l → js = js' := by
-  sorry
+    shuffle js l = shuffle js' l → js = js' :=
+  RandShuffle.shuffle_injective l hl js js' h h'
 
 theorem shuffle_surjective {α : Type} (l l' : List α) (hp : l'.Perm l) :
-    ∃ js, ValidDraws (l.length - 1) js ∧ shuffle js l = l' := by
-  sorry
+    ∃ js, ValidDraws (l.length - 1) js ∧ shuffle js l = l' :=
+  RandShuffle.shuffle_surjective l l' hp
 
 theorem drawsFrom_valid (k : Nat) (hk : k + 1 < 2 ^ 32) (vs js rest : List Nat)
     (hv : ∀ v ∈ vs, v < 2 ^ 32) :
-    drawsFrom k vs = some (js, rest) → ValidDraws k js := by
-  sorry
+    drawsFrom k vs = some (js, rest) → ValidDraws k js :=
+  RandDraw.drawsFrom_valid k hk vs js rest hv
 
 end Saltpack.Proofs
